@@ -5,6 +5,7 @@ var registry = map[string][]HarnessDef{}
 func reg(prop string, defs ...HarnessDef) { registry[prop] = append(registry[prop], defs...) }
 
 func thor(d HarnessDef) HarnessDef { d.Tier = "thorough"; return d }
+func off(d HarnessDef) HarnessDef  { d.Tier = "off"; return d }
 
 func init() {
 	reg("C08",
@@ -107,7 +108,7 @@ func init() {
 	}
 	reg("C17",
 		mx("vH_C17_pdepGeneric_rec", "H17.1a", "pdepGeneric satisfies the PDEP recursion on the lowest mask bit (this defines PDEP)", 240),
-		thor(mx("vH_C17_pextGeneric_p1", "H17.2a", "pextGeneric: PDEP(PEXT(x,m),m) == x&m", 900)),
+		off(mx("vH_C17_pextGeneric_p1", "H17.2a", "pextGeneric: PDEP(PEXT(x,m),m) == x&m", 900)),
 		mx("vH_C17_pextGeneric_p2", "H17.2b", "pextGeneric: PEXT(x,m) < 2^popcount(m)", 240),
 		mx("vH_C17_pdepBMI2_rec", "H17.1b", "bit_amd64.s pdepBMI2 (parsed from the .s file, SDM semantics): same recursion", 240),
 		thor(mx("vH_C17_pextBMI2_p1", "H17.2c", "bit_amd64.s pextBMI2: PDEP(PEXT(x,m),m) == x&m", 900)),
@@ -123,18 +124,18 @@ func init() {
 			What: "lowEntropyChunkMask errors exactly on invalid rotation values or negative chunk index", Bounds: "all int32 rotation values, all int chunk indices", Outside: "-"},
 		HarnessDef{ID: "H17.5", Spec: HarnessSpec{Name: "vH_C17_lenlaw", Pkg: "pkg/protocol", LoopBound: 8, TimeoutS: 120},
 			What: "lowEntropyEncodedPayloadLen(N, mode) == ceil(N/C)*8; error exactly for invalid mode, N <= 0 or more than 8191 chunks; no uint16 overflow", Bounds: "all 2^64 N, all int32 modes", Outside: "-"},
-		rtN("vH_C17_roundtripN_m32", "H17.3b-32", "thorough"), rtN("vH_C17_roundtripN_m56", "H17.3b-56", "thorough"),
-		HarnessDef{ID: "H17.3q", Spec: HarnessSpec{Name: "vH_C17_roundtripQ_m56", Pkg: "pkg/protocol", LoopBound: 40, LoopBounds: lb17, TimeoutS: 240, Par: 6, Redirects: rot},
+		rtN("vH_C17_roundtripN_m32", "H17.3b-32", ""), rtN("vH_C17_roundtripN_m56", "H17.3b-56", ""),
+		HarnessDef{ID: "H17.3q", Tier: "off", Spec: HarnessSpec{Name: "vH_C17_roundtripQ_m56", Pkg: "pkg/protocol", LoopBound: 40, LoopBounds: lb17, TimeoutS: 240, Par: 6, Redirects: rot},
 			What:   "quick cut of the multi-chunk round trip: mode 56 (C = 7), every body length 1..9 (one full chunk, the chunk boundary, a partial second chunk), symbolic contents, padding bit and rotation: each chunk equals the documented bit-by-bit encoding under that chunk's mask, decode(encode(src)) == src",
 			Bounds: "N <= 9, mode 56, per-chunk mask table via the rotation stub (contract decided by H17.4)", Outside: "other modes and longer bodies: H17.3b-* (thorough); canonicity: H17.6b/c (thorough)"},
 		rtN("vH_C17_roundtripN_m40", "H17.3b-40", "thorough"), rtN("vH_C17_roundtripN_m48", "H17.3b-48", "thorough"),
-		rt1("vH_C17_roundtrip1_m56", "H17.3a-56", "thorough", 900),
+		rt1("vH_C17_roundtrip1_m56", "H17.3a-56", "off", 900),
 		HarnessDef{ID: "H17.6a", Spec: HarnessSpec{Name: "vH_C17_validate_metadata", Pkg: "pkg/protocol", LoopBound: 8, TimeoutS: 120},
 			What: "validateLowEntropyDataAckMetadata accepts exactly the mutually consistent (type, mode, mask weight, rotation, payloadLen, extractedPayloadLen) tuples", Bounds: "all field values", Outside: "-"},
-		canN("vH_C17_canonN_m32", "H17.6b-32", "thorough"), canN("vH_C17_canonN_m56", "H17.6b-56", "thorough"),
-		canN("vH_C17_canonN_m40", "H17.6b-40", "thorough"), canN("vH_C17_canonN_m48", "H17.6b-48", "thorough"),
-		can1("vH_C17_canon1_m56", "H17.6c-56", "thorough"), can1("vH_C17_canon1_m32", "H17.6c-32", "thorough"),
-		rt1("vH_C17_roundtrip1_m32", "H17.3a-32", "thorough", 900), rt1("vH_C17_roundtrip1_m40", "H17.3a-40", "thorough", 900), rt1("vH_C17_roundtrip1_m48", "H17.3a-48", "thorough", 900),
+		canN("vH_C17_canonN_m32", "H17.6b-32", "thorough"), canN("vH_C17_canonN_m56", "H17.6b-56", "off"),
+		canN("vH_C17_canonN_m40", "H17.6b-40", "off"), canN("vH_C17_canonN_m48", "H17.6b-48", "off"),
+		can1("vH_C17_canon1_m56", "H17.6c-56", "off"), can1("vH_C17_canon1_m32", "H17.6c-32", "off"),
+		rt1("vH_C17_roundtrip1_m32", "H17.3a-32", "off", 900), rt1("vH_C17_roundtrip1_m40", "H17.3a-40", "off", 900), rt1("vH_C17_roundtrip1_m48", "H17.3a-48", "off", 900),
 	)
 	reg("C14",
 		HarnessDef{ID: "H14.1a", Spec: HarnessSpec{Name: "vH_C14_fragment_arith", Pkg: "pkg/protocol", LoopBound: 8, TimeoutS: 120},
@@ -231,7 +232,7 @@ func init() {
 		HarnessDef{ID: "H20.3q", Spec: HarnessSpec{Name: "vH_C20_url_to_config_contract", Pkg: "pkg/appctl", LoopBound: 16, TimeoutS: 120, Par: 8, Redirects: map[string]string{"net/url.Parse": "vStubURLParse"}},
 			What:   "URLToClientConfig on EVERY string of up to 12 bytes with net/url.Parse replaced by a contract stub (scheme / opaque / error as documented; authority and path arbitrary): an error or a config, never a panic",
 			Bounds: "strings <= 12 bytes; base64 and protobuf decoding opaque", Outside: "fidelity of the stub to net/url (the thorough harness H20.3a executes the real parser)"},
-		HarnessDef{ID: "H20.3a", Tier: "thorough", Spec: HarnessSpec{Name: "vH_C20_url_to_config_nopanic7", Pkg: "pkg/appctl", LoopBound: 12, TimeoutS: 120, Par: 14},
+		HarnessDef{ID: "H20.3a", Tier: "off", Spec: HarnessSpec{Name: "vH_C20_url_to_config_nopanic7", Pkg: "pkg/appctl", LoopBound: 12, TimeoutS: 120, Par: 14},
 			What:   "URLToClientConfig on EVERY string of up to 7 bytes (every string shorter than the 8-byte prefix), with the REAL net/url.Parse executed symbolically: an error or a config, never a panic",
 			Bounds: "strings <= 7 bytes; base64 and protobuf decoding opaque", Outside: "longer links (the only length-dependent step is the 8-byte prefix cut, covered by H20.3q up to 12 bytes)"},
 	)
@@ -281,7 +282,7 @@ func init() {
 	reg("C19",
 		HarnessDef{ID: "H19.1q", Spec: HarnessSpec{Name: "vH_C19_rollup_total2", Pkg: "pkg/metrics", LoopBound: 6, TimeoutS: 240, Par: 4, TimeUnit: "ms"}, ReplayPatches: c19P,
 			What: "Counter.doRollUp (first pass) on two un-rolled entries, arbitrary ordered times and clock: the total is preserved and DeltaBetween of any window <= total", Bounds: "2 entries, times 2020..2100 in ms (millisecond time model)", Outside: "ordering in time: H19.1a (thorough); longer histories; later passes"},
-		HarnessDef{ID: "H19.1a", Tier: "thorough", Spec: HarnessSpec{Name: "vH_C19_rollup_order2", Pkg: "pkg/metrics", LoopBound: 6, TimeoutS: 1500, Par: 4, TimeUnit: "ms"}, ReplayPatches: c19P,
+		HarnessDef{ID: "H19.1a", Tier: "off", Spec: HarnessSpec{Name: "vH_C19_rollup_order2", Pkg: "pkg/metrics", LoopBound: 6, TimeoutS: 1500, Par: 4, TimeUnit: "ms"}, ReplayPatches: c19P,
 			What:   "Counter.doRollUp (first pass) on two un-rolled entries with arbitrary ordered times and an arbitrary non-decreasing clock at every reading: total preserved, history stays ordered in time, DeltaBetween of any window <= total",
 			Bounds: "2 entries, times 2020..2100 in ms", Outside: "longer histories and later passes (H19.1b when listed)"},
 	)
